@@ -17,7 +17,7 @@ VERIF = os.path.dirname(os.path.dirname(os.path.abspath(__file__)))
 REPO = os.environ.get("SYNRBL_REPO", "/repo")
 LEAN_DIR = os.path.join(VERIF, "lean")
 DRIVER = os.path.join(LEAN_DIR, ".lake", "build", "bin", "driver")
-EVIDENCE_DIR = os.path.join(VERIF, "evidence")
+EVIDENCE_DIR = os.environ.get("SYNRBL_VERIF_EVIDENCE_DIR") or os.path.join(VERIF, "evidence")  # override: seeded-defect runs only
 REPLAY_DIR = os.path.join(VERIF, "replays")
 CORPUS_DIR = os.path.join(VERIF, "corpus")
 KNOWN = os.path.join(VERIF, "known_findings.json")
